@@ -339,6 +339,8 @@ def make_config(cfg, extra_args=None):
         args.append("--show-skipped")
     if cfg.get("wip_flag"):
         args.append("--wip")
+    if cfg.get("verbose"):
+        args.append("--verbose")
     proto = cfg.get("proto")
     if proto:
         args.append("--tag-expression-protocol=%s" % proto)
